@@ -104,7 +104,10 @@ def run(ctx):
     des = one(lambda m: has_call(m, 'b64decode'), 'deserialize')
     ph = one(lambda m: m is not des and any(isinstance(n, ast.Attribute) and n.attr == 'ABOVE_LIMIT_CONTENT' for n in ast.walk(m.node)) and
              any(isinstance(n, ast.Return) and isinstance(n.value, ast.Dict) for n in ast.walk(m.node)), 'placeholder result')
-    gp = one(lambda m: any(self_attr(n) == 'file_path_arg_name' for n in ast.walk(m.node)), 'path function')
+    gps = [m for m in fi.methods.values() if m.name != '__init__' and any(self_attr(n) == 'file_path_arg_name' for n in ast.walk(m.node))]
+    if not gps:
+        raise AnalysisError('anchor-lost role=path function (candidates [])')
+    gp = gps[0]
     calcs = [m for m in fi.methods.values() if has_call(m, 'getenv') or any(isinstance(n, ast.Attribute) and norm(n) == 'os.environ' for n in ast.walk(m.node))]
     if len(calcs) != 1:
         raise AnalysisError('anchor-lost role=limit source (candidates %s)' % [m.name for m in calcs])
@@ -388,31 +391,32 @@ def run(ctx):
 
     def is_pos(e):
         return isinstance(e, ast.Subscript) and self_attr(e.slice) == 'file_path_arg_index'
-    try:
-        table = _paths.return_paths(gp.node)
-    except _paths.Unsupported as ex:
-        raise AnalysisError('path function has a shape the path table does not model: %s' % ex)
-    okg = bool(table)
-    kinds = set()
-    for p in table:
-        cls_ = [_paths.classify(c, pol, is_kw) for c, pol in p.conds]
-        cls_ = [c for c in cls_ if c]
-        if p.value is not None and is_kw(p.value) and cls_ and all(c in ('truthy', 'notnone') for c in cls_):
-            kinds.add('kw')
-        elif p.value is not None and is_pos(p.value) and cls_ and all(c in ('falsy', 'none') for c in cls_):
-            kinds.add('pos')
-        else:
-            okg = False
-    okg = okg and kinds == {'kw', 'pos'}
-    cd.instance('path function: keyword argument first, then position (%s)' % '; '.join(p.text() for p in table), gp.qualname, okg)
-    if not okg:
-        res.add(Finding('C20', 'C20.d', 'R-PROV', gp.file, gp.qualname, gp.node.lineno, 'path lookup order', 'the intercepted path is not taken from the keyword argument first and the position otherwise'))
+    for gp in gps:
+        try:
+            table = _paths.return_paths(gp.node)
+        except _paths.Unsupported as ex:
+            raise AnalysisError('path function has a shape the path table does not model: %s' % ex)
+        okg = bool(table)
+        kinds = set()
+        for p in table:
+            cls_ = [_paths.classify(c, pol, is_kw) for c, pol in p.conds]
+            cls_ = [c for c in cls_ if c]
+            if p.value is not None and is_kw(p.value) and cls_ and all(c in ('truthy', 'notnone') for c in cls_):
+                kinds.add('kw')
+            elif p.value is not None and is_pos(p.value) and cls_ and all(c in ('falsy', 'none') for c in cls_):
+                kinds.add('pos')
+            else:
+                okg = False
+        okg = okg and kinds == {'kw', 'pos'}
+        cd.instance('path function: keyword argument first, then position (%s)' % '; '.join(p.text() for p in table), gp.qualname, okg)
+        if not okg:
+            res.add(Finding('C20', 'C20.d', 'R-PROV', gp.file, gp.qualname, gp.node.lineno, 'path lookup order', 'the intercepted path is not taken from the keyword argument first and the position otherwise'))
     ri = inp.lookup('restore_input_from_recording')
     users = {'record': icpt, 'input restore': ri}
     for nm, m in users.items():
-        calls = [n for n in ast.walk(m.node) if isinstance(n, ast.Call) and self_attr(n.func) == gp.name]
+        calls = [n for n in ast.walk(m.node) if isinstance(n, ast.Call) and self_attr(n.func) in [g.name for g in gps]]
         ok = len(calls) == 1 and [norm(a) for a in calls[0].args] == [m.params[-2], m.params[-1]]
-        cd.instance('%s takes the path from %s(args, kwargs) of the current call' % (nm, gp.name), m.qualname, ok)
+        cd.instance('%s takes the path from %s(args, kwargs) of the current call' % (nm, '/'.join(g.name for g in gps)), m.qualname, ok)
         if not ok:
             res.add(Finding('C20', 'C20.d', 'R-PROV', m.file, m.qualname, m.node.lineno, 'path source of %s' % nm, '%s does not obtain the path from the shared path function applied to the current call\'s arguments' % nm))
     # input restore writes on every path
